@@ -87,7 +87,8 @@ def eval_kernel_differential(ctx, with_model):
                 meta.append((name, cases, "model"))
         else:
             ctx.violation("correspondence-broken", f"eval.py has opcode {name} with no Word256 spec", {"op": name})
-    outs = coqrun.eval_zlists(imports, exprs, "c14eval", shard=3)
+    outs = coqrun.eval_zlists(imports, exprs, "c14eval", shard=3 if ctx.tier == "quick" else 1,
+                              timeout=240 if ctx.tier == "quick" else 1800)
     n = 0
     found = False
     for (name, cases, kind), exp in zip(meta, outs):
@@ -429,6 +430,8 @@ def prebuild(ctx):
     c14d_part.prebuild(ctx)
     c14g_part.prebuild(ctx)
     c14l_part.prebuild(ctx)
+    from vlib import c14mm_part
+    c14mm_part.prebuild(ctx)
     c14_pass.prebuild(ctx)
 
 
@@ -930,6 +933,9 @@ def run(ctx):
     from vlib import c14l_part
     total += c14l_part.part_small_passes(ctx)
     ctx.log(f"small rewrite passes {time.time()-t:.0f}s"); t = time.time()
+    from vlib import c14mm_part
+    total += c14mm_part.part_memmerge(ctx)
+    ctx.log(f"memmerging {time.time()-t:.0f}s"); t = time.time()
     from vlib import c14s_part
     total += c14s_part.part_stack(ctx)
     ctx.log(f"stack model {time.time()-t:.0f}s"); t = time.time()
